@@ -50,9 +50,18 @@
  * is painted) are cut: the model keeps a virtual copy W of that buffer only to decide where to stop
  * (counter cut_two_buffer_architecture), never to predict a cell.
  *
- * Keys: "<letter class> in <mode>: <what differs>" - the letter class is the FIRST letter of the
- * history after which the decoder's working buffer or cursor (peeked through the private
- * header, for attribution only) left the model, the verdict itself is always on fetched pages.
+ *   (2a) channel t between those points: a row of its page that changes must change to the model's row
+ *       (the decoder copies whole rows when it renders), except for a pair "space, character" which is
+ *       rendered between its two characters.
+ *
+ * Keys: "<letter class> in <mode>: <working buffer | cursor row | cursor column | pen attributes> of the
+ * decoder differs from the standard" - letter class and mode are those of the FIRST letter of the history
+ * after which the decoder's private state (peeked through src/vbi.h, for attribution only) left the
+ * model; the verdict itself is always on fetched pages and events, and is raised at the letter where the
+ * difference becomes visible.  Without such a letter: "<letter class> in <mode>: page differs from the
+ * displayed memory of the standard: <kind of cell difference>".  Other classes: "<mode command | erase command | text | control code>
+ * addressed to <relation> changed the page of the channel shown", "no caption event: ...".
+ * A violating history is not continued, so one defect can hide another behind it.
  *
  * The decoder object is created once per worker and re-initialised per history with
  * vbi_caption_destroy() + vbi_caption_init() (what vbi_decoder_new() runs), vbi->time reset.
@@ -146,7 +155,7 @@ typedef struct {
 enum { PR_NONE, PR_CURSOR, PR_OTHERCH, PR_ARCH, PR_COL32, PR_N };
 static const char *PRN[PR_N] = { "", "cut_cursor_undefined", "cut_control_code_for_unselected_channel", "cut_two_buffer_architecture", "cut_bs_der_in_column_32" };
 
-typedef struct { int target, cmp, cls, mode_before, prune, executed; unsigned exempt; } Step;
+typedef struct { int target, cmp, cls, mode_before, prune, executed, midflush; unsigned exempt; } Step;
 
 /* vbi_color values (format.h): BLACK 0 RED 1 GREEN 2 YELLOW 3 BLUE 4 MAGENTA 5 CYAN 6 WHITE 7 */
 static const uint8_t COL608[7] = { 7, 2, 4, 6, 1, 3, 5 };      /* white green blue cyan red yellow magenta */
@@ -226,7 +235,7 @@ static void erase_mem(Mem m) { memset(m, 0, sizeof(Mem)); }
 /* one control pair (7 bit values, parity fine) or text pair on field f */
 static void model_pair(Model *m, int f, int c1, int c2, Step *st)
 {
-        st->target = -1; st->cmp = 0; st->cls = LC_NONE; st->prune = 0; st->mode_before = M_NONE; st->executed = 0; st->exempt = 0;
+        st->target = -1; st->cmp = 0; st->cls = LC_NONE; st->prune = 0; st->mode_before = M_NONE; st->executed = 0; st->exempt = 0; st->midflush = 0;
 
         if (c1 < 0x10 || c1 > 0x1F) {
                 /* text (alphabets contain no 0x01-0x0F) */
@@ -244,6 +253,7 @@ static void model_pair(Model *m, int f, int c1, int c2, Step *st)
                 st->executed = 1;
                 int lastc = c2 ? c2 : c1;
                 st->cmp = (c->mode == M_POP) || lastc == 0x20;
+                st->midflush = c1 == 0x20 && c2 > 0x20;         /* the row is rendered between the two characters */
                 return;
         }
 
@@ -562,17 +572,17 @@ static void peek_suspect(int t, const Step *st)
         const vbi_char *wtext = rc->pg[rc->hidden].text;
         int r, k; const char *d = mem_diff(c->W, wtext, is_textch(t), &r, &k);
         char what[80] = "";
-        if (d) snprintf(what, sizeof what, "working buffer: %s", d);
+        if (d) snprintf(what, sizeof what, "working buffer");
         else if (c->cur_def && c->mode != M_NONE) {
-                if (rc->row != c->row) snprintf(what, sizeof what, "cursor row moved");
-                else if (!(rc->col - 1 == c->col || (c->full && rc->col == 33))) snprintf(what, sizeof what, "cursor column differs");
+                if (rc->row != c->row) snprintf(what, sizeof what, "cursor row");
+                else if (!(rc->col - 1 == c->col || (c->full && rc->col == 33))) snprintf(what, sizeof what, "cursor column");
         }
         if (!what[0] && c->mode != M_NONE) {
                 vbi_char a = rc->attr; const Pen *p = &c->pen;
                 if ((!(p->undef & A_FG) && a.foreground != p->fg) || (!(p->undef & A_UL) && a.underline != !!(p->at & A_UL))
                     || (!(p->undef & A_IT) && a.italic != !!(p->at & A_IT)) || (!(p->undef & A_FL) && a.flash != !!(p->at & A_FL))
                     || (!(p->undef & A_BG) && (a.background != p->bg || a.opacity != p->op)))
-                        snprintf(what, sizeof what, "pen attributes differ");
+                        snprintf(what, sizeof what, "pen attributes");
         }
         if (!what[0]) return;
         suspect.have = 1; suspect.cls = st->cls; suspect.mode = st->mode_before; snprintf(suspect.what, sizeof suspect.what, "%s", what);
@@ -580,8 +590,18 @@ static void peek_suspect(int t, const Step *st)
 
 static void make_key(char *key, size_t n, const Step *st, const char *visible)
 {
-        if (suspect.have) snprintf(key, n, "%s in %s: %s", LCN[suspect.cls], MODEN[suspect.mode], suspect.what);
-        else snprintf(key, n, "%s in %s: page: %s", LCN[st->cls], MODEN[st->mode_before], visible);
+        if (suspect.have) snprintf(key, n, "%s in %s: %s of the decoder differs from the standard", LCN[suspect.cls], MODEN[suspect.mode], suspect.what);
+        else snprintf(key, n, "%s in %s: page differs from the displayed memory of the standard: %s", LCN[st->cls], MODEN[st->mode_before], visible);
+}
+
+static const char *cls_group(int cls)
+{
+        switch (cls) {
+        case LC_RCL: case LC_RU: case LC_RDC: case LC_EOC: case LC_TR: case LC_RTD: return "mode command";
+        case LC_EDM: case LC_ENM: return "erase command";
+        case LC_TEXT: case LC_NUL: return "text";
+        default: return "control code";
+        }
 }
 
 static void note_outcome(const Step *st)
@@ -605,7 +625,7 @@ static int do_letter(const Letter *l, int audit)
                 if (st.prune && !agg.prune) agg.prune = st.prune;
                 if (st.target >= 0 && (agg.target < 0 || st.executed)) { agg.target = st.target; agg.mode_before = st.mode_before; }
                 if (st.cls != LC_REPEAT || agg.cls == LC_NONE) agg.cls = st.cls;
-                agg.cmp |= st.cmp; agg.executed |= st.executed; agg.exempt |= st.exempt;
+                agg.cmp |= st.cmp; agg.executed |= st.executed; agg.exempt |= st.exempt; agg.midflush |= st.midflush;
                 feed(l->f, l->p[0], l->p[1]);
         }
         if (!audit) { if (!agg.prune) peek_suspect(agg.target, &agg); return agg.prune; }
@@ -623,6 +643,7 @@ static int do_letter(const Letter *l, int audit)
         for (int ch = 0; ch < 8 && !bad; ch++)
                 if ((changed & (1u << ch)) && !(evmask & (1u << ch))) {
                         char key[160]; snprintf(key, sizeof key, "no caption event: %s in %s changed the visible page", LCN[agg.cls], ch == t ? MODEN[agg.mode_before] : "another channel");
+                        if (suspect.have) snprintf(key, sizeof key, "no caption event for a changed page; %s in %s: %s of the decoder differs from the standard", LCN[suspect.cls], MODEN[suspect.mode], suspect.what);
                         report(key, "page of %s changed during letter '%s' but no VBI_EVENT_CAPTION pgno=%d was raised (events seen: mask %x)", CHN[ch], l->name, ch + 1, evmask);
                 }
         /* (1) frame condition */
@@ -637,12 +658,27 @@ static int do_letter(const Letter *l, int audit)
                         char was[40], is[40]; row_str(was, sizeof was, &prev_pg[ch][r * PCOLS]); row_str(is, sizeof is, &now_pg[ch][r * PCOLS]);
                         char key[200];
                         const char *rel = t < 0 ? "no channel" : (t ^ ch) == 4 ? "the text/caption twin of the channel shown" : ((t ^ ch) & 2) ? "a channel of the other field" : "another channel of the same field";
-                        snprintf(key, sizeof key, "%s addressed to %s changed the page of the channel shown", LCN[agg.cls], rel);
+                        snprintf(key, sizeof key, "%s addressed to %s changed the page of the channel shown", cls_group(agg.cls), rel);
                         report(key, "letter '%s' addresses %s (mode %s) but the page of %s changed: row %d was [%s] is [%s]", l->name, t < 0 ? "no channel" : CHN[t], MODEN[agg.mode_before], CHN[ch], r + 1, was, is);
                 }
         /* attribution */
         if (!agg.prune) peek_suspect(t, &agg);
         if (!bad) note_outcome(&agg);
+        /* (2a) between comparison points: a row of the addressed page that changes must change to the displayed
+         * memory of the standard (the decoder copies whole rows when it renders) */
+        if (!bad && t >= 0 && !agg.cmp && !agg.prune && !agg.midflush && (changed & (1u << t)))
+                for (int r = 0; r < 15 && !bad; r++) {
+                        if (!memcmp(&now_pg[t][r * PCOLS + 1], &prev_pg[t][r * PCOLS + 1], 32 * sizeof(vbi_char))) continue;
+                        for (int k = 0; k < 32; k++) {
+                                const char *d = cell_diff(MOD.ch[t].D[r], k, now_pg[t][r * PCOLS + 1 + k], is_textch(t));
+                                if (!d) continue;
+                                char key[240], is[40], want[40], was[40];
+                                make_key(key, sizeof key, &agg, d);
+                                row_str(is, sizeof is, &now_pg[t][r * PCOLS]); row_str(was, sizeof was, &prev_pg[t][r * PCOLS]); mrow_str(want, sizeof want, MOD.ch[t].D[r]);
+                                report(key, "%s page row %d changed during '%s' (mode %s) from [%s] to [%s], standard [%s]: column %d %s", CHN[t], r + 1, l->name, MODEN[agg.mode_before], was, is, want, k + 1, d);
+                                break;
+                        }
+                }
         /* (2) visible page against the displayed memory */
         if (!bad && t >= 0 && agg.cmp && !agg.prune) {
                 int r, k; const char *d = mem_diff(MOD.ch[t].D, now_pg[t], is_textch(t), &r, &k);
@@ -776,7 +812,7 @@ static void build_phases(void)
         add_channel_full(p, 1, 1, 1); add_text(p, 1);
 
         /* field 1, both data channels: CC1, CC2, T1, T2 interleaved */
-        p = new_phase("field1-two-channels", 4, 5);
+        p = new_phase("field1-two-channels", 4, 6);
         add_channel_small(p, 0, 0, 2); add_channel_small(p, 0, 1, 2);
         ADD(p, L_text(0, 'a', 'b')); ADD(p, L_text(0, 'a', ' ')); ADD(p, L_text(0, 0, 0));
 
@@ -813,7 +849,7 @@ static void build_phases(void)
         ADD(p, L_pac(0, 0, 2, 15, 28, 0, 0)); ADD(p, L_pac(0, 0, 2, 15, 24, 0, 0)); ADD(p, L_pac(0, 0, 2, 14, 28, 0, 0));
 
         /* text channel with the caption channel of the same data channel */
-        p = new_phase("text-t1", 4, 5);
+        p = new_phase("text-t1", 4, 6);
         ADD(p, L_misc(0, 0, 2, RTD)); ADD(p, L_misc(0, 0, 2, TR)); ADD(p, L_misc(0, 0, 2, CR)); ADD(p, L_misc(0, 0, 1, CR)); ADD(p, L_misc(0, 0, 2, BS)); ADD(p, L_misc(0, 0, 2, DER));
         ADD(p, L_misc(0, 0, 2, FON)); ADD(p, L_misc(0, 0, 2, EDM)); ADD(p, L_misc(0, 0, 2, ENM)); ADD(p, L_misc(0, 0, 2, RCL)); ADD(p, L_misc(0, 0, 2, RU2)); ADD(p, L_misc(0, 0, 2, EOC));
         ADD(p, L_pac(0, 0, 2, 15, 0, 0, 0)); ADD(p, L_pac(0, 0, 2, 1, 4, 0, 1)); ADD(p, L_pac(0, 0, 2, 7, -1, 2, 0)); ADD(p, L_pac(0, 0, 2, 15, 28, 0, 0));
@@ -869,7 +905,7 @@ static void self_check(void)
 int main(int argc, char **argv)
 {
         mc_init(argc, argv, "C08");
-        mc_set_budget(100, 1200);
+        mc_set_budget(100, 840);
         mc_meta("level", "model_checking");
         mc_meta("technique", "explicit-state BFS over caption byte-pair histories fed through vbi_decode() into the real decoder; every fetched page audited against a reference display model written from 47 CFR 15.119 / EIA-608-B");
         build_phases();
